@@ -97,7 +97,9 @@ let last_deferred : (string * string * string) option ref = ref None
 let judge _id (c : cursor) (r : cursor) : bool * string =
   last_deferred := None;
   let kind = next c in
-  let is_mcts = (match kind with "mcts" -> true | "pomcp" -> false | k -> failwith ("unknown case kind " ^ k)) in
+  let is_mcts = (match kind with "mcts" | "mctsv" -> true | "pomcp" | "rpomcp" -> false | k -> failwith ("unknown case kind " ^ k)) in
+  let is_r = (kind = "rpomcp") in
+  let entropy = if is_r then next_int c else 0 in
   let _seed = next c in
   let ns = next_int c in let na = next_int c in let _no = next_int c in let nk = next_int c in
   let disc = next_q c in
@@ -107,12 +109,17 @@ let judge _id (c : cursor) (r : cursor) : bool * string =
     let _s1 = next_int c in let _o = next_int c in let rw = next_q c in
     maxr := q_max !maxr (q_abs rw)
   done;
+  (* variable action space (mctsv): getA(s) = acnt.(s); otherwise the constant A *)
+  let acnt = if kind = "mctsv" then Array.init ns (fun _ -> next_int c) else Array.make ns na in
+  let ga_i (s : int) = if s >= 0 && s < ns then acnt.(s) else 1 in
+  let ga (s : nat) : nat = nat_of_int (ga_i (ioN s)) in
   let _bsize = if is_mcts then 0 else next_int c in
   let iters = next_int c in let _expl = next_q c in
+  let _k = if is_r then next_int c else 0 in
   let nops = next_int c in
   let term (s : nat) : bool = let i = ioN s in i < ns && termv.(i) in
   let a_n = nat_of_int na in let iters_n = nat_of_int iters in
-  let site = if is_mcts then "MCTS::simulate" else "POMCP::simulate" in
+  let site = if is_mcts then "MCTS::simulate" else if is_r then "rPOMCP::simulate" else "POMCP::simulate" in
   let tree = ref node0 in
   let prev_itree = ref node0 in
   let pool : ev list ref = ref [] in
@@ -140,7 +147,21 @@ let judge _id (c : cursor) (r : cursor) : bool * string =
     let itree = parse_node r in
     let opsite = Printf.sprintf "op%d(%s h=%d)" opi opk h in
     (* ---- O: oracle on the implementation's outputs *)
-    if na > 0 && ret >= na then oracle_fail "action_valid" (if is_mcts then "MCTS::sampleAction" else "POMCP::sampleAction") (Printf.sprintf "%s returned action %d >= A=%d" opsite ret na);
+    let root_na = if is_mcts then ga_i (if opk = "F" then a1 else a2) else na in
+    if root_na > 0 && ret >= root_na then oracle_fail "action_valid" (if is_mcts then "MCTS::sampleAction" else if is_r then "rPOMCP::sampleAction" else "POMCP::sampleAction") (Printf.sprintf "%s returned action %d >= A=%d" opsite ret root_na);
+    (* every action ever passed to the generative model is legal in the state it is applied to *)
+    List.iter (fun x ->
+        let s = ioN x.e.es and a = ioN x.e.ea in
+        if a >= ga_i s then oracle_fail "action_valid" (site ^ "/model-call") (Printf.sprintf "%s: the model was asked to sample action %d in state %d, which has %d actions" opsite a s (ga_i s)))
+      evs;
+    if is_r then begin
+      (* rPOMCP also counts visits of leaves: N >= sum of the actions' N *)
+      let rec chk (n : node) =
+        if ioN (nN n) < List.fold_left (fun acc a -> acc + ioN (aN a)) 0 (acts n) then
+          oracle_fail "tree_counts_invariant" site (opsite ^ ": a node's N is smaller than the sum of its actions' N");
+        List.iter (fun a -> List.iter (fun (_, ch) -> chk ch) (kids a)) (acts n) in
+      chk itree
+    end else
     if not (counts_okb itree) then oracle_fail "tree_counts_invariant" site (opsite ^ ": a node's N differs from the sum of its actions' N in the dumped tree");
     let steps_i = group_steps evs in
     if h > 0 && List.length steps_i <> iters then disagree "iterations" site (Printf.sprintf "%s: %d simulations observed, %d requested" opsite (List.length steps_i) iters);
@@ -156,13 +177,26 @@ let judge _id (c : cursor) (r : cursor) : bool * string =
            if is_mcts then begin
              let root_s = if opk = "F" then a1 else a2 in
              if ioN x.e.es <> root_s then disagree "log_continuity" site (opsite ^ ": simulation does not start from the root state")
+           end else if is_r then begin
+             (* rPOMCP keeps its sampling belief private: a simulation may only start from a state of
+                the given belief's support (call from scratch), or from a state the model actually
+                produced under (a, o) earlier in the history (advance into a simulated node) *)
+             let s0 = ioN x.e.es in
+             if opk = "F" then begin
+               if s0 >= ns || q_eq (List.nth bvec s0) q_zero then oracle_fail "particles_consistent" "rPOMCP::sampleBelief" (Printf.sprintf "%s: a simulation starts from state %d, which has probability 0 in the given belief" opsite s0)
+             end else begin
+               let simulated = (match List.nth_opt (acts !prev_itree) a1 with
+                   | Some an -> List.exists (fun (k, _) -> ioN k = a2) (kids an) | None -> false) in
+               if simulated && not (List.exists (fun e -> ioN e.ea = a1 && ioN e.eo = a2 && ioN e.es1 = s0) !pool) then
+                 oracle_fail "particles_consistent" "rPOMCP::sampleBelief" (Printf.sprintf "%s: a simulation starts from state %d, which the model never produced under (a=%d,o=%d)" opsite s0 a1 a2)
+             end
            end else begin
              if not (List.exists (fun p -> ioN p = ioN x.e.es) (bel itree)) then oracle_fail "particles_consistent" site (opsite ^ ": simulation starts from a state that is not a root particle")
            end
          | [] -> ()))
       (split_groups steps_i evs);
     (* POMCP fresh belief: particles must lie in the support of b *)
-    if (not is_mcts) && opk = "F" then
+    if (not is_mcts) && (not is_r) && opk = "F" then
       List.iter (fun p -> let i = ioN p in
                   if i >= ns || q_eq (List.nth bvec i) q_zero then oracle_fail "particles_consistent" "POMCP::makeSampledBelief" (Printf.sprintf "%s: particle %d has probability 0 in the given belief" opsite i))
         (bel itree);
@@ -176,7 +210,8 @@ let judge _id (c : cursor) (r : cursor) : bool * string =
          | Some an -> (match List.find_opt (fun (k, _) -> ioN k = a2) (kids an) with
              | Some (_, ch) when is_mcts || bel ch <> [] -> acts ch
              | _ -> [])) in
-    if h > 0 && List.length (acts itree) = na then begin
+    if h > 0 && (not is_r) && List.length (acts itree) = root_na then begin
+      let na = root_na in
       let cnt = Array.make na 0 and sm = Array.make na q_zero in
       List.iter (fun g -> match g with
           | x :: _ -> let a = ioN x.e.ea in
@@ -216,13 +251,24 @@ let judge _id (c : cursor) (r : cursor) : bool * string =
     if opk <> "F" && !prev_h >= 0 && h < !prev_h - 1 then range_valid := false;
     if opk = "F" then range_valid := true;
     prev_h := h;
+    if is_r then begin
+      (* no machine for rPOMCP: oracle level only *)
+      (match !deferred with Some (cl, st, d) -> oracle_fail cl st d | None -> ());
+      if opk <> "F" then begin
+        let sub = (match List.nth_opt (acts !prev_itree) a1 with
+            | Some an -> List.exists (fun (k, _) -> ioN k = a2) (kids an) | None -> false) in
+        if sub then incr promoted else incr restarted
+      end;
+      if tree_depth itree >= 2 then nontrivial := true;
+      prev_itree := itree
+    end else begin
     (* ---- C: replay on the machine *)
     let rl = if depth_bad then rl_orig else rl_fixed in
     let tr = List.map (fun x -> x.e) evs in
     let (((g', act), tr'), steps_m) =
       if is_mcts then
         let op = if opk = "F" then MFresh (nat_of_int a1, nat_of_int h) else MAdvance (nat_of_int a1, nat_of_int a2, nat_of_int h) in
-        mcts_op a_n term disc rl iters_n !tree op tr
+        mcts_op ga term disc rl iters_n !tree op tr
       else
         let ps = bel itree in   (* makeSampledBelief's draws are inputs; only used on a (re)start *)
         let op = if opk = "F" then PFresh (ps, nat_of_int h) else PAdvance (nat_of_int a1, nat_of_int a2, nat_of_int h, ps) in
@@ -253,10 +299,11 @@ let judge _id (c : cursor) (r : cursor) : bool * string =
     if tree_depth g' >= 2 then nontrivial := true;
     tree := g';
     prev_itree := itree
+    end
   done;
   (match !deferred with Some (cl, st, d) -> oracle_fail cl st d | None -> ());
   (!nontrivial || !promoted > 0,
-   Printf.sprintf "%s%s%s" kind (if !promoted > 0 then "+promote" else "") (if !restarted > 0 then "+restart" else ""))
+   Printf.sprintf "%s%s%s" (if is_r then (if entropy <> 0 then "rpomcp-entropy" else "rpomcp-maxbelief") else kind) (if !promoted > 0 then "+promote" else "") (if !restarted > 0 then "+restart" else ""))
 
 (* A horizon overrun that the known rollout-length expression does not explain (the machine run
    with rl_orig disagrees too) is reported as an oracle failure at a distinct site, so that it is
